@@ -131,6 +131,39 @@ type Annotation struct {
 	ID     uint64
 	Fields []string
 	Toks   map[string]Tok
+	// Stamps: explicit F_user / F_time sent along with F (dedicated sub-test only); "" = not sent.
+	Stamps map[string][2]string
+}
+
+// Ann builds an annotation from (field, token) pairs.
+func Ann(id uint64, kv ...string) *Annotation {
+	a := &Annotation{ID: id, Toks: map[string]Tok{}}
+	for i := 0; i+1 < len(kv); i += 2 {
+		a.Fields = append(a.Fields, kv[i])
+		a.Toks[kv[i]] = Tok{kv[i+1], classOf(kv[i+1])}
+	}
+	return a
+}
+
+func classOf(js string) string {
+	if js == "null" {
+		return "null"
+	}
+	for _, sp := range Vocab {
+		for _, t := range sp.Toks {
+			if t.JSON == js {
+				return t.Class
+			}
+		}
+	}
+	for _, ts := range IntFloatToks {
+		for _, t := range ts {
+			if t.JSON == js {
+				return t.Class
+			}
+		}
+	}
+	return "other"
 }
 
 func (a *Annotation) JSON() string {
@@ -138,6 +171,14 @@ func (a *Annotation) JSON() string {
 	fmt.Fprintf(&sb, `{"bodyid":%d`, a.ID)
 	for _, f := range a.Fields {
 		fmt.Fprintf(&sb, `,%s:%s`, strconv.Quote(f), a.Toks[f].JSON)
+		if st, ok := a.Stamps[f]; ok {
+			if st[0] != "" {
+				fmt.Fprintf(&sb, `,%s:%s`, strconv.Quote(f+"_user"), strconv.Quote(st[0]))
+			}
+			if st[1] != "" {
+				fmt.Fprintf(&sb, `,%s:%s`, strconv.Quote(f+"_time"), strconv.Quote(st[1]))
+			}
+		}
 	}
 	sb.WriteByte('}')
 	return sb.String()
